@@ -193,7 +193,8 @@ SETTINGS_POOL = [
     {"source": "input.txt"}, {"source": "input.txt", "ignorecase": True}, {"source": "input.txt", "whitespace": ""}, {"source": "other.txt"},
     {"comments": "\\{[^}]*\\}"}, {"eol_comments": ";[^\\n]*"}, {"comments": "\\(\\*((?:.|\\n)*?)\\*\\)", "eol_comments": "#([^\\n]*?)$"}, {"nameguard": False, "namechars": "-"},
 ]
-CALL_SETTINGS = [{"comments": "\\{[^}]*\\}"}, {"eol_comments": ";[^\\n]*"}, {"memoization": False}, {"left_recursion": False}, {"parseinfo": True}, {"ignorecase": True}, {"ignorecase": True}, {"nameguard": False}, {"whitespace": ""}, {"source": "input.txt"}, {"keywords": ["x", "iff"]},
+PARSER_INIT = [{"memoization": False}, {"memoization": False}, {"left_recursion": False}, {"parseinfo": True}, {"ignorecase": True}, {"nameguard": False}, {"whitespace": ""}, {"trace": False}]
+CALL_SETTINGS = [{"memoization": True}, {"ignorecase": False}, {"parseinfo": False}, {"comments": "\\{[^}]*\\}"}, {"eol_comments": ";[^\\n]*"}, {"memoization": False}, {"left_recursion": False}, {"parseinfo": True}, {"ignorecase": True}, {"ignorecase": True}, {"nameguard": False}, {"whitespace": ""}, {"source": "input.txt"}, {"keywords": ["x", "iff"]},
                  {"source": "input.txt", "ignorecase": True}, {"source": "input.txt", "whitespace": ""}, {"source": "input.txt", "nameguard": False}]
 NAMES = [None, None, "A", "B", "Test"]
 SEM_HANDLES = {"S1": "tag", "S2": "eq", "S3": "num", "S4": "fb"}      # a shared semantics object is always of the same kind
@@ -735,6 +736,18 @@ def exec_op(op, H, probes=None):
             if key not in H:
                 H[key] = ("cfg", ParserConfig(**op["cfg"]))
             cfg_obj = H[key][1]
+            # the caller's object says what op["cfg"] says: where that differs from what the object was given last
+            # time, the caller has assigned the fields IN PLACE since (cfg.ignorecase = True), not built a new object
+            last = H.get("cfgl:" + op["cfgh"], ("cfg", None))[1]
+            if last is not None and last != op["cfg"]:
+                fresh = ParserConfig()
+                for f in set(last) | set(op["cfg"]):
+                    want = op["cfg"][f] if f in op["cfg"] else getattr(fresh, f)
+                    if getattr(cfg_obj, f) != want:
+                        setattr(cfg_obj, f, want)
+                if probes is not None:
+                    probes["caller_changed_its_config_object_in_place"] = probes.get("caller_changed_its_config_object_in_place", 0) + 1
+            H["cfgl:" + op["cfgh"]] = ("cfg", dict(op["cfg"]))
         else:
             cfg_obj = ParserConfig(**op["cfg"])  # the caller's own object: built before any fault can strike
         cfg_before = canon_config(cfg_obj)
@@ -793,7 +806,7 @@ def exec_op(op, H, probes=None):
             ns = {"__name__": f"genparser_{op['out']}"}
             exec(compile_(src, f"<gen {op['g']}>"), ns)  # noqa: S102
             cls = next(v for k, v in ns.items() if isinstance(v, type) and k.endswith("Parser") and v.__module__ == ns["__name__"])
-            H[op["out"]] = ("parser", cls())
+            H[op["out"]] = ("parser", cls(**(op.get("init") or {})))
             return {"parser": cls.__name__, "src": hashlib.sha256(src.encode()).hexdigest()[:20]}
         if kind == "drop":
             H.pop(op["h"], None)
@@ -1158,6 +1171,8 @@ def gen_call(rng, handles, models_only=False, allow_fault=True, focus=None):
         op = {"op": "pymodel", "g": g, "name": rng.choice(NAMES)}
     elif r < 0.98 and not models_only:
         op = {"op": "load", "g": g, "name": rng.choice(["P", "Q", None])}
+        if rng.random() < 0.25:
+            op["init"] = dict(rng.choice(PARSER_INIT))  # settings given to the parser object when it is made
         _HCTR[0] += 1
         h = f"p{_HCTR[0]}"
         op["out"] = h
@@ -1398,7 +1413,7 @@ def gen_service_history(rng, handles):
 
 # per-call settings that MATTER to a grammar (the parse takes another path under them), so that "unusual first, plain
 # later" histories are not mostly about settings the grammar never looks at
-_MEMO = [{"memoization": False}, {"memoization": False}, {"left_recursion": False}, {"memoization": False, "parseinfo": True}, {"memoization": False, "left_recursion": False}]
+_MEMO = [{"memoization": True}, {"left_recursion": True}, {"memoization": False}, {"memoization": False}, {"left_recursion": False}, {"memoization": False, "parseinfo": True}, {"memoization": False, "left_recursion": False}]
 _CASE = [{"ignorecase": True}, {"nameguard": False}, {"keywords": ["x", "iff"]}, {"namechars": "_"}, {"ignorecase": True, "nameguard": False}]
 _SPACE = [{"whitespace": ""}, {"whitespace": "[ ]+"}, {"nameguard": False}, {"whitespace": "[ \\t\\n]+"}]
 _CMT = [{"comments": "\\{[^}]*\\}"}, {"eol_comments": ";[^\\n]*"}, {"comments": "\\(\\*((?:.|\\n)*?)\\*\\)", "eol_comments": "#([^\\n]*?)$"}, {"comments": None}]
@@ -1429,6 +1444,9 @@ def gen_firstuse_history(rng, handles):
         call_sem = {}
     else:
         c = {"op": "load", "g": g, "name": rng.choice(["P", "Q", None])}
+        if rng.random() < 0.5:
+            # the object's own settings are the opposite of what one call asks for (memoization off, on for one call)
+            c["init"] = dict(rng.choice(PARSER_INIT))
         kind = "pparse"
         call_sem = {} if sem == "none" else {"sem": sem}
     _HCTR[0] += 1
@@ -1444,6 +1462,11 @@ def gen_firstuse_history(rng, handles):
         odd = {"start": rng.choice([x for x in start_choices(g) if x] or ["start"])}
     else:
         odd = {"asmodel": True}
+    init = c.get("init") or {}
+    flags = [k for k, v in init.items() if isinstance(v, bool)]
+    if flags and rng.random() < 0.7:
+        # one call asks for the opposite of what the object was made with (memoization off in general, on for this input)
+        odd = {"settings": {k: (not init[k]) for k in flags}}
     texts = [rng.choice([GOOD_INPUT.get(g, INPUTS[g][0]), rng.choice(INPUTS[g])]) for _ in range(rng.choice([1, 2, 3]))]
     first = [dict({"op": kind, "h": c["out"], "g": g, "text": t}, **copy.deepcopy(odd), **call_sem) for t in texts[: rng.choice([1, 1, 2])]]
     plain = [dict({"op": kind, "h": c["out"], "g": g, "text": t}, **call_sem) for t in texts]
@@ -1453,6 +1476,41 @@ def gen_firstuse_history(rng, handles):
         ops += plain[:1] + first + plain
     if rng.random() < 0.3:
         ops.append(dict({"op": kind, "h": c["out"], "g": g, "text": texts[0]}, **copy.deepcopy(odd), **call_sem))
+    return ops
+
+
+K3_FIELDS = [{"ignorecase": True}, {"ignorecase": False}, {"whitespace": ""}, {"nameguard": False}, {"parseinfo": True}, {"source": "first.txt"}, {"source": "second.txt"}, {}]
+
+
+def gen_config_history(rng, handles):
+    """An application that keeps ONE ParserConfig object, passes it to every call as config=, and changes its fields in
+    place between calls (cfg.start = ..., cfg.ignorecase = True) - also across grammars.  Every call must behave as it
+    would with a fresh config object of equal contents; nothing a call learnt from the object earlier may stick."""
+    g = rng.choice(["kw", "kw_c", "icase", "ws", "tok_a", "ref", "two", "choice", "typed", "cmt_c", "eol"])
+    ops = []
+    _HCTR[0] += 1
+    m = f"m{_HCTR[0]}"
+    c = {"op": "compile", "g": g, "name": rng.choice(NAMES), "asmodel": False, "sem": "none", "settings": {}, "out": m}
+    handles[m] = c
+    ops.append(c)
+    m2 = None
+    if rng.random() < 0.4:
+        g2 = rng.choice(next((f for f in FAMILIES if g in f), [g]))
+        _HCTR[0] += 1
+        m2 = f"m{_HCTR[0]}"
+        c2 = {"op": "compile", "g": g2, "name": rng.choice(NAMES), "asmodel": False, "sem": "none", "settings": {}, "out": m2}
+        handles[m2] = c2
+        ops.append(c2)
+    pool = list(K3_FIELDS) + [{"start": x} for x in start_choices(g) if x] + [dict(x) for x in RELEVANT_SETTINGS.get(g, []) if set(x) <= {"ignorecase", "whitespace", "nameguard", "parseinfo"}]
+    contents = dict(rng.choice(pool))
+    text = rng.choice([GOOD_INPUT.get(g, INPUTS[g][0]), rng.choice(INPUTS[g])])
+    for i in range(rng.choice([2, 3, 4, 5])):
+        h = m2 if (m2 and rng.random() < 0.35) else m
+        gg = handles[h]["g"]
+        ops.append({"op": "mparse", "h": h, "g": gg, "text": text if gg == g and rng.random() < 0.7 else rng.choice(INPUTS[gg]), "cfgh": "K3", "cfg": dict(contents)})
+        k = rng.random()
+        if k < 0.7:
+            contents = {**contents, **rng.choice(pool)} if rng.random() < 0.5 else dict(rng.choice(pool))
     return ops
 
 
@@ -1570,6 +1628,8 @@ def _gen_spec(seed: int, mode: str | None = None) -> dict:
             ops = gen_firstuse_history(rng, handles)
         elif k < 0.43:
             ops = gen_paths_history(rng, handles)
+        elif k < 0.48:
+            ops = gen_config_history(rng, handles)
         elif k < 0.6:
             ops = gen_pair_history(rng, handles)
         else:
